@@ -2,7 +2,7 @@
 from ..framework import Check
 from .. import mgr_check
 
-THEOREMS = ['C01_exactly_once', 'C01_recipients_subscribed', 'C01_valid_dest', 'C01_dest_filter', 'C01_invalid_dest_nobody', 'C01_deliver_decision', 'C01_unmodified', 'C01_ex']
+THEOREMS = ['C01_exactly_once', 'C01_recipients_subscribed', 'C01_valid_dest', 'C01_dest_filter', 'C01_invalid_dest_nobody', 'C01_deliver_decision', 'C01_unmodified', 'C01_ex', 'C01_forward_exact', 'C01_forward_exact_ex']
 CHECKERS = ['C01', 'C03']
 
 
